@@ -1,0 +1,14 @@
+//go:build verif
+
+package chain
+
+// Verification hook of the view-change client family (build tag `verif` only; add-only).
+
+// VerifVCSwapPhaseEvents replaces the channel PhaseEvents returns (the one sendPhase writes to and a
+// DKG process started afterwards reads from) and returns the previous one.  A harness uses it to stand
+// between sendPhase and a running DKGProcess loop, so that it knows whether an event was sent.
+func (c *Chain) VerifVCSwapPhaseEvents(ch chan PhaseEvent) chan PhaseEvent {
+	old := c.phaseEvents
+	c.phaseEvents = ch
+	return old
+}
